@@ -117,6 +117,16 @@ class Lab:
         if isinstance(p, int):
             self.problem.count_shared = True
             return p
+        if isinstance(p, str) and p.startswith('lint'):
+            # likelihood pool only: (k, None)
+            self.problem.count_shared = True
+            return (int(p[4:]), None)
+        if isinstance(p, str) and p.startswith('lmp'):
+            import multiprocessing
+            self.problem.count_shared = True
+            po = multiprocessing.Pool(int(p[3:]))
+            self.pool_objs.append(po)
+            return (po, None)
         if isinstance(p, str) and p.startswith('int'):
             self.problem.count_shared = True
             return int(p[3:])
@@ -268,6 +278,15 @@ class PermutingPool:
         for i in order:
             out[i] = func(items[i])
         return out
+
+    def imap(self, func, iterable, chunksize=1):
+        return iter(self.map(func, iterable))
+
+    def imap_unordered(self, func, iterable, chunksize=1):
+        # completion order = evaluation order
+        items = list(iterable)
+        for i in self.rng.permutation(len(items)):
+            yield func(items[i])
 
     def terminate(self):
         pass
